@@ -92,6 +92,14 @@ Explained(e) ==
     [] e.op = "div_cx" -> /\ ~e.panic /\ (e.s # 0 \/ e.si # 0)
                           /\ SameTri(e.pre, TLin(e.rt, e.s, e.rti, -e.si))
                           /\ SameTri(e.prei, TLin(e.rt, e.si, e.rti, e.s))
+    \* ---- exact dyadic float data with a pivot that is tiny relative to its diagonal entry: entries, right-hand side and the
+    \* returned solution are polynomials in eps = 2^-t (coefficient lists); x = xs / (L eps^K).  The model refuses only if a
+    \* leading minor vanishes IDENTICALLY; otherwise the call must return the exact solution ----
+    [] e.op = "solve_eps" -> IF PSomePivotZero(e.pre)
+                               THEN e.panic /\ e.zero
+                               ELSE /\ ~e.panic /\ e.L >= 1 /\ e.L <= 1024 /\ e.K >= 0 /\ e.K <= 4
+                                    /\ \A j \in 1..e.pre.n : PSmall(e.xs[j], 1048576)
+                                    /\ PResidualZero(e.pre, e.xs, e.L, e.K, e.r)
     \* floats on integer data where only the zero tests are exact: the outcome (answer or refusal) is decided by the model
     [] e.op = "solve_outcome" -> IF SomePivotZero(e.pre) THEN e.panic /\ e.zero ELSE ~e.panic /\ e.finite
     \* ---- floats ----
